@@ -65,20 +65,44 @@ def run(ctx, res):
         break
     # R2 layout survives re-lexing after a reduce; R7 it is reset after a shift
     rid2 = res.rule("C14-R2", "layout read before the re-lex after a reduce is restored after it; after a shift the layout is reset "
-                    "before the next token is looked for", floor=2)
+                    "before the next token is looked for", floor=3)
     g, paths = rt.cache(F).paths(rt.LR_PWC)
+    verdicts = []
     for p in paths:
         kind, action = rt.lr_action_kind(p)
         if kind == "Reduce":
+            # The lookahead is fetched again in the new state. The layout in front of it must come out of that neither lost
+            # nor clobbered: if the second fetch finds no layout (the usual case: the first fetch already moved past it) the
+            # layout read BEFORE is put back; if it finds one (the first fetch had taken the start of a comment for a token -
+            # a lookahead of the merged LALR state - and only the second sees the comment) that one stays (D40).
             i_nt = idx(p, "::next_token", 1)
             la = [i for i, e in enumerate(p.events) if e[0] == "call" and mir.call_matches(e[1], "Context::layout_ahead")]
             sl = [(i, e) for i, e in enumerate(p.events) if e[0] == "call" and mir.call_matches(e[1], "Context::set_layout_ahead")]
-            ok = i_nt is not None and any(i < i_nt for i in la) and any(i > i_nt and is_call(e[2][1], "Context::layout_ahead") for i, e in sl)
-            if ok:
-                res.ok(rid2, "reduce/restore-layout", g.loc())
+            if i_nt is None:
+                continue
+            saved = any(i < i_nt for i in la)
+            restored = any(i > i_nt and is_call(e[2][1], "Context::layout_ahead") for i, e in sl)
+            found = None        # did the second fetch find layout, as far as this path knows
+            for i, e in enumerate(p.events):
+                if i <= i_nt or e[0] != "cond":
+                    continue
+                t, v = e[1], e[2]
+                if is_call(t, "::is_none") and t[2] and is_call(t[2][0], "Context::layout_ahead") and v in (0, 1):
+                    found = (v == 0)
+                elif is_call(t, "::is_some") and t[2] and is_call(t[2][0], "Context::layout_ahead") and v in (0, 1):
+                    found = (v == 1)
+                elif isinstance(t, tuple) and t[0] == "discr" and is_call(t[1], "Context::layout_ahead") and isinstance(v, frozenset):
+                    found = (v == frozenset(["Some"])) if v in (frozenset(["Some"]), frozenset(["None"])) else found
+            key = "reduce/restore-layout"
+            if found is None:
+                if saved and restored:
+                    verdicts.append((key, "clobber"))
+                else:
+                    verdicts.append((key, "lost"))
+            elif found:
+                verdicts.append((key, "clobber" if restored else "ok"))
             else:
-                res.violation(rid2, "reduce/restore-layout", "after a reduce the layout read before re-lexing is not restored (the second "
-                              "lexing starts after the skipped layout and overwrites it with None)", g.loc())
+                verdicts.append((key, "ok" if (saved and restored) else "lost"))
         if kind == "Shift":
             i_sh = idx(p, "LRBuilder::shift_action")
             i_nt = idx(p, "::next_token", 1)
@@ -91,6 +115,19 @@ def run(ctx, res):
                 res.violation(rid2, "shift/reset-layout", "the layout consumed by a shifted token is not reset before the next token is "
                               "looked for: with a Layout rule a token without preceding layout inherits the previous token's "
                               "layout (the layout parser only ever sets it)", g.loc())
+    kinds = {v for k, v in verdicts}
+    if not verdicts:
+        res.anchor_lost(rid2, "no Reduce path with a second token fetch in the LR loop", g.loc())
+    elif "lost" in kinds:
+        res.violation(rid2, "reduce/restore-layout", "after a reduce the layout read before re-lexing is not restored (the second "
+                      "lexing starts after the skipped layout and overwrites it with None)", g.loc())
+    elif "clobber" in kinds:
+        res.violation(rid2, "reduce/keep-new-layout", "after a reduce the layout read before re-lexing is put back whatever the second "
+                      "fetch found: a comment that only the second fetch sees (its first character was taken for a token in the "
+                      "merged LALR state) is replaced by the older value and is in no leaf", g.loc())
+    else:
+        res.ok(rid2, "reduce/restore-layout", g.loc(), "%d Reduce path(s): put back when the second fetch found none" % len(verdicts))
+        res.ok(rid2, "reduce/keep-new-layout", g.loc(), "kept when it found one")
     # R3 whitespace skipping
     rid3 = res.rule("C14-R3", "StringLexer::skip: skipped slice = input[pos .. pos + sum(len_utf8 of leading whitespace)], stored as "
                     "layout_ahead and the position advanced by it; nothing skipped => layout_ahead = None, position untouched", floor=4)
